@@ -3,7 +3,7 @@ and impl vs the independent ISA spec (oracle).  Exhaustive for all one-word form
 from collections import Counter
 from . import enc_common as E
 
-THEOREM_FILES = ['C01', 'Enc', 'EncOps1', 'EncOps2', 'EncOps3', 'EncOps4', 'EncDefs']
+THEOREM_FILES = ['C01', 'C01b', 'Enc', 'EncOps1', 'EncOps2', 'EncOps3', 'EncOps4', 'EncDefs']
 
 ASSUMPTIONS = [
     'AVR instruction patterns in Avra/Isa/Isa.lean are transcribed by hand from the Instruction Set Manual',
